@@ -34,9 +34,9 @@ PROP_INVS = {
     "C15": ["FreshPort", "BindOracle", "Available", "NoDoubleUse",
             "DnsFunction", "DnsInjective", "DnsReverse", "DnsLiteral", "DnsRegex"],
     "C02": ["Prefix", "PeekFaithful", "ReadOverrun", "DataAfterEof", "EarlyEof", "Stall", "SpuriousReset",
-            "ErrorKind", "PrefixInv", "EofInv"],
+            "ErrorKind", "NoPanic", "PrefixInv", "EofInv"],
     "C12": ["OkWithoutAccept", "RefusedThoughAccepted", "Hang", "AcceptHang", "PhantomAccept", "AcceptedDead",
-            "AcceptOrder", "Mirror", "Reclaimed", "ErrorKind", "Prefix"],
+            "AcceptOrder", "Mirror", "Reclaimed", "ErrorKind", "NoPanic", "Prefix"],
 }
 
 _TCP = dict(impl="MsgTcp", gen="MsgTcpGen", ptrace="MsgTcpPropTrace", itrace="MsgTcpTrace",
@@ -95,10 +95,10 @@ def mc_configs(pid, tier):
         cfgs = [
             # every delivery order, peeks interleaved, shutdown vs drop of either half, buffers 0/1/2, capacity 1
             ("mc_data_cap1", tcp_consts(Cap=1, WriteLens={1, 2}, ReadSizes={0, 1, 2}, PeekSizes={1}, MaxWrites=2,
-                                        MaxAct=9 if q else 11)),
+                                        MaxAct=8 if q else 11)),
             # capacity 2: the FIN arrives behind a full queue (D1), writer outruns the reader
             ("mc_data_cap2", tcp_consts(Cap=2, Alpha={"write", "shutdown", "read", "deliver", "quiet", "drop_stream"},
-                                        WriteLens={1}, ReadSizes={1, 2}, MaxWrites=3, MaxAct=11 if q else 13)),
+                                        WriteLens={1}, ReadSizes={1, 2}, MaxWrites=3, MaxAct=10 if q else 13)),
         ]
         if not q:
             cfgs.append(("mc_data_cap3", tcp_consts(Cap=3, Alpha={"write", "shutdown", "read", "deliver", "quiet"},
@@ -108,7 +108,7 @@ def mc_configs(pid, tier):
         return cfgs
     if pid == "C12":
         cfgs = [
-            ("mc_conn", conn_consts(MaxAct=9 if q else 10)),
+            ("mc_conn", conn_consts(MaxAct=8 if q else 10)),
             # nonce exchange and the last clause (dropped streams are not counted): one client host
             ("mc_conn_data", conn_consts(NH=2, Alpha={"bind", "connect", "deliver", "accept", "poll", "write", "read",
                                                        "drop_stream", "drop_half"},
@@ -120,7 +120,7 @@ def mc_configs(pid, tier):
         return cfgs
     if pid == "C15":
         cfgs = [
-            ("mc_ports", ports_consts(MaxOps=6 if q else 7)),
+            ("mc_ports", ports_consts(MaxOps=6 if q else 8)),
             ("mc_dns", dns_consts(MaxOps=5 if q else 6)),
         ]
         if not q:
@@ -135,21 +135,25 @@ def gen_configs(pid, tier):
     if pid == "C02":
         cfgs = [
             ("gen_data_cap1", tcp_consts(Cap=1, WriteLens={1, 2}, ReadSizes={1, 2}, PeekSizes={1}, MaxWrites=2,
-                                         MaxAct=6 if q else 7), dict(v6=0), None),
+                                         MaxAct=5 if q else 7), dict(v6=0), None),
             ("gen_data_cap2", tcp_consts(Cap=2, Alpha={"write", "shutdown", "read", "deliver", "quiet", "drop_stream"},
-                                         WriteLens={1}, ReadSizes={0, 1}, MaxWrites=3, MaxAct=8 if q else 9), dict(v6=1), None),
+                                         WriteLens={1}, ReadSizes={0, 1}, MaxWrites=3, MaxAct=7 if q else 9), dict(v6=1), None),
+            # the FIN meets a full queue (D1 family): one direction, capacity 1 and 2, reader starts late
+            ("gen_fin_full", tcp_consts(Cap=1, Alpha={"write", "shutdown", "deliver", "read", "quiet"},
+                                        WriteLens={1}, ReadSizes={1}, MaxWrites=1, MaxAct=8 if q else 10), dict(v6=0), None),
+            # seeded random walks of 22 actions (num = walks per TLC worker)
             ("sim_data", tcp_consts(Cap=2, WriteLens={1, 2, 3}, ReadSizes={0, 1, 2, 4}, PeekSizes={1, 2}, MaxWrites=4,
-                                    MaxAct=22), dict(v6=0), f"num={1500 if q else 20000}"),
+                                    MaxAct=22), dict(v6=0), f"num={150 if q else 3000}"),
         ]
         return cfgs
     if pid == "C12":
         cfgs = [
-            ("gen_conn", conn_consts(MaxAct=6 if q else 7), dict(v6=0), None),
+            ("gen_conn", conn_consts(MaxAct=5 if q else 7), dict(v6=0), None),
             ("gen_conn_data", conn_consts(NH=2, Alpha={"bind", "connect", "deliver", "accept", "poll", "write", "read",
                                                         "drop_stream"},
-                                          DestKinds={"srv"}, BindKinds={"any"}, MaxAct=8 if q else 9), dict(v6=1), None),
+                                          DestKinds={"srv"}, BindKinds={"any"}, MaxAct=10 if q else 11), dict(v6=1), None),
             ("sim_conn", conn_consts(MaxConn=3, Cap=3, Alpha=set(CONN_OPS) | {"write", "read", "drop_stream"},
-                                     MaxAct=20), dict(v6=0), f"num={1500 if q else 20000}"),
+                                     MaxAct=20), dict(v6=0), f"num={150 if q else 3000}"),
         ]
         return cfgs
     if pid == "C15":
@@ -174,7 +178,8 @@ def random_configs(pid, tier, seed):
         return [dict(c, seed=seed * 101 + i, maxconn=c["conns"], ports=[1, 2]) for i, c in enumerate(base)]
     if pid == "C15":
         base = [dict(lo=49152, hi=49156, maxsock=8, ops=40, names=40, runs=6 if q else 30),
-                dict(lo=50000, hi=50002, maxsock=5, ops=30, names=300, runs=6 if q else 30)]
+                # more than 256 registered names in one session (the v4 host part spans two octets)
+                dict(lo=50000, hi=50002, maxsock=5, ops=30, names=400, dnsops=700, runs=4 if q else 30)]
         if not q:
             base.append(dict(lo=60000, hi=60007, maxsock=12, ops=80, names=600, runs=20))
         return [dict(c, seed=seed * 101 + i) for i, c in enumerate(base)]
@@ -305,6 +310,7 @@ NEED_OUTCOMES = {
     "gen_data_cap1": ["read:data", "read:eof", "read:pending", "read:reset", "write:wouldblock", "write:brokenpipe",
                       "peek:data", "deliver:rst", "deliver:fin"],
     "gen_data_cap2": ["read:data", "read:eof", "read:zero", "write:wouldblock"],
+    "gen_fin_full": ["read:data", "read:eof", "read:pending", "deliver:fin"],
     "gen_conn": ["connect:pending", "connect:refused", "poll:ok", "poll:refused", "poll:pending", "accept:ok",
                  "accept:pending", "bind:inuse", "deliver:syn"],
     "gen_conn_data": ["accept:ok", "poll:ok", "read:data"],
@@ -361,7 +367,10 @@ def run(pid, tier, seed, replay=None):
             log(vlib.counterexample_text(r))
             raise MachineryError(f"behaviour generation {name} failed ({r.violated or r.error or 'timeout'})")
         behs = vlib.extract_replays(r.stdout)
-        hs = tree_leaves(behs) if simulate is None else [json.loads(b) for b in behs]
+        if simulate is None:
+            hs = tree_leaves(behs)
+        else:
+            hs = [json.loads(b) for b in dict.fromkeys(behs)]      # distinct walks that reached MaxAct
         ck.add_tlc(r, name)
         seen = outcomes_of(pid, hs)
         lack = [o for o in NEED_OUTCOMES.get(name, []) if not seen.get(o)]
